@@ -723,10 +723,10 @@ def handleRS (payload : String) : String :=
         { name := (k.getObjValAs? String "name").toOption.getD "", capacity := (k.getObjValAs? Nat "capacity").toOption.getD 0,
           quantity := (k.getObjValAs? Nat "quantity").toOption.getD 0 })
       let names : List (List String) := listed.map (fun s => if s == "" then [] else s.splitOn ", ")
+      -- a listed name stands for SOME kind of that name (names may repeat across capacities) that has
+      -- rooms and whose capacity is usable for the course
       let sound := (List.range sizes.length).all (fun c => (names.getD c []).all (fun nm =>
-        match kinds.find? (fun k => k.name == nm) with
-        | some k => decide (0 < k.quantity) && RM.usable sizes rooms c k.capacity
-        | none => false))
+        kinds.any (fun k => k.name == nm && decide (0 < k.quantity) && RM.usable sizes rooms c k.capacity)))
       let nonempty := (List.range sizes.length).all (fun c => sizes.getD c 0 == 0 || !(names.getD c []).isEmpty)
       s!"sound={sound} nonempty={nonempty}"
     | _ =>
